@@ -131,6 +131,16 @@ impl X {
             2 => format!(" {}=\"{}\" {}X=\"decoy\"", name, v, name),
             3 => format!(" x{}=\"decoy\" ho:{}=\"{}\"", name, name, v),
             4 => format!(" {}-{}=\"decoy\" MY{}=\"decoy2\" {}=\"{}\"", name, name, name, name, v),
+            5 => {
+                // the value spelled with a character reference (its last character) and, if there is one, '&amp;'
+                let mut cs: Vec<char> = val.chars().collect();
+                let last = cs.pop();
+                let head: String = cs.into_iter().collect();
+                match last {
+                    Some(c) => format!(" {}=\"{}&#{};\"", name, escape(&head), c as u32),
+                    None => format!(" {}=\"\"", name),
+                }
+            }
             _ => format!(" {}=\"{}\"", name, v),
         }
     }
@@ -554,7 +564,7 @@ pub fn gen_c11(rng: &mut Rng, thorough: bool, out: &mut Cases) {
     for i in 0..n {
         let o = GenOpts { dup_ids: i % 5 == 3, dangling: i % 7 == 5 };
         let layout = gen_layout(rng, &o);
-        let style = if i % 3 == 0 { 0 } else { 1 + (i % 5) as u8 };
+        let style = if i % 3 == 0 { 0 } else { 1 + (i % 6) as u8 };
         let ecu = rng.chance(1, 3);
         let files: Vec<Option<Vec<u8>>> = layout.iter().map(|els| Some(render_file(els, style, ecu))).collect();
         let mut w = W::new();
@@ -578,7 +588,7 @@ pub fn gen_c11(rng: &mut Rng, thorough: bool, out: &mut Cases) {
     for i in 0..n / 3 {
         let o = GenOpts { dup_ids: false, dangling: i % 7 == 5 };
         let layout = gen_layout(rng, &o);
-        let style = if i % 4 == 0 { 0 } else { 1 + (i % 5) as u8 };
+        let style = if i % 4 == 0 { 0 } else { 1 + (i % 6) as u8 };
         let files: Vec<Option<Vec<u8>>> = layout.iter().map(|els| Some(respell_elements(rng, &render_file(els, style, i % 3 == 0)))).collect();
         let mut w = W::new();
         w_fibex_case(&mut w, &files, style, None);
@@ -623,6 +633,11 @@ pub fn respell_elements(rng: &mut Rng, doc: &[u8]) -> Vec<u8> {
                                     i = body_start + c + close.len();
                                     continue;
                                 }
+                                2 => {
+                                    out.push_str(&format!("<{}><![CDATA[{}]]>{}", tag_all, &s[body_start..body_start + c], close));
+                                    i = body_start + c + close.len();
+                                    continue;
+                                }
                                 _ => {}
                             }
                         }
@@ -634,6 +649,28 @@ pub fn respell_elements(rng: &mut Rng, doc: &[u8]) -> Vec<u8> {
         out.push(ch);
         i += ch.len_utf8();
     }
+    out.into_bytes()
+}
+
+/// every leaf text `>text</` becomes `><![CDATA[text]]></`
+pub fn cdata_text(doc: &[u8]) -> Vec<u8> {
+    let s = String::from_utf8_lossy(doc).to_string();
+    let mut out = String::new();
+    let mut rest = &s[..];
+    while let Some(gt) = rest.find('>') {
+        out.push_str(&rest[..gt + 1]);
+        rest = &rest[gt + 1..];
+        if let Some(lt) = rest.find('<') {
+            let text = &rest[..lt];
+            if !text.trim().is_empty() && rest[lt..].starts_with("</") && !text.contains("]]>") {
+                out.push_str("<![CDATA[");
+                out.push_str(text);
+                out.push_str("]]>");
+                rest = &rest[lt..];
+            }
+        }
+    }
+    out.push_str(rest);
     out.into_bytes()
 }
 
@@ -792,8 +829,8 @@ pub fn gen_c12(rng: &mut Rng, thorough: bool, out: &mut Cases) {
     let mut w = W::new();
     w_fibex_case(&mut w, &[Some(vec![])], 1, None);
     out.push(50, w);
-    // every truncation offset of small documents
-    let ndocs = if thorough { 10 } else { 2 };
+    // every truncation offset of small documents (every third one with its text wrapped in CDATA sections)
+    let ndocs = if thorough { 12 } else { 3 };
     for i in 0..ndocs {
         let o = GenOpts { dup_ids: false, dangling: false };
         let mut layout = gen_layout(rng, &o);
@@ -802,6 +839,7 @@ pub fn gen_c12(rng: &mut Rng, thorough: bool, out: &mut Cases) {
         }
         let els: Vec<Element> = layout.into_iter().flatten().collect();
         let doc = render_file(&els, if i % 2 == 0 { 1 } else { 0 }, false);
+        let doc = if i % 3 == 2 { cdata_text(&doc) } else { doc };
         for k in 0..doc.len() {
             let mut w = W::new();
             w_fibex_case(&mut w, &[Some(doc[..k].to_vec())], 1, None);
@@ -823,7 +861,7 @@ pub fn gen_c12(rng: &mut Rng, thorough: bool, out: &mut Cases) {
     for i in 0..n {
         let o = GenOpts { dup_ids: i % 5 == 3, dangling: i % 3 != 1 };
         let layout = gen_layout(rng, &o);
-        let style = if i % 4 == 0 { 0 } else { 1 + (i % 5) as u8 };
+        let style = if i % 4 == 0 { 0 } else { 1 + (i % 6) as u8 };
         let mut files: Vec<Option<Vec<u8>>> = layout.iter().map(|els| Some(render_file(els, style, rng.chance(1, 3)))).collect();
         let k = rng.below(files.len() as u64) as usize;
         if i % 3 == 0 {
